@@ -5,7 +5,7 @@ SPEC = {
     "required_theorems": ["bigint_exact", "bigint_small_as_int", "bigint_large_as_bytes", "bigint_result_fits", "u64_exact",
                           "u64_int_fits", "i64_exact", "datum_map_preserves", "unfixed_truncates_at_witness", "map_tx_preserves", "map_block_preserves",
                           "mapOutput_preserves", "mapTxDatum_preserves", "input_index_truncates_at_witness"],
-    "streams": [{"name": "u5c", "quick": 200, "thorough": 100000}],
+    "streams": [{"name": "u5c", "quick": 200, "thorough": 30000}],
     "rule": "txview cases: for every transaction (quick: the first 4 of each block of a 36-file window; thorough: all) of the test_data blocks and tx files, and for 2 generated Conway transactions per generated case (txbuilder: 1-3 inputs, outputs with u64-edge coins, assets incl. quantities above 2^63, datum hash / inline datum trees, native / Plutus script refs, mint incl. i64::MIN/MAX, collateral + return, reference inputs, validity bounds, witness datums, a spend redeemer), the ledger view read through pallas-traverse is put on the op line, both mappers run on the real transaction, and the canonical rendering of the mapped message is compared with the Lean model of map_tx applied to the view. file cases: blocks (*.block) and transactions (*.tx) of test_data through map_block / map_tx of BOTH schema versions "
             "(quick: a seed-dependent window of 36 of the files; thorough: all), every mapped hash / input / output address, coin, "
             "assets / fee / validity / output datum / witness datum re-extracted with pallas-traverse and compared. Generated cases: "
@@ -13,8 +13,8 @@ SPEC = {
             "-2^64..-2^63-1; BigUInt/BigNInt byte strings of 0..12 bytes incl. leading zeros), u64 scalars through the fee and "
             "output coin of a built transaction, i64 scalars through a mint quantity, datum trees (depth <= 3; constr tags 121-127, "
             "1280-1400, 102+alternative, arbitrary tags; maps, arrays, bytes) mapped directly and carried as inline datums of built "
-            "transactions through map_tx. distinct = sha1 of op text; non-trivial = the case maps an integer outside i64 and a "
-            "structured (non-leaf) datum",
+            "transactions through map_tx. distinct = sha1 of op text; non-trivial = the case (a) maps an integer outside i64 or a transaction "
+            "carrying native assets or a mint, and (b) maps a structured (non-leaf) datum or a transaction with inputs and outputs",
     "trusted_base": [
         "Model/U5c.lean is a hand transcription of u64_to_bigint, i64_to_bigint, map_plutus_bigint and the recursive "
         "map_plutus_datum/constr/map/array of pallas-utxorpc/src/shared.rs (one macro body instantiated for v1alpha and v1beta); "
